@@ -875,3 +875,39 @@ package op
 //@        && callarg("op.AuthStorage.RevokeToken", 3) == callres("op.ParseTokenRevocationRequest", 2)
 //@   ensures garbage-token-still-ok: called("op.AuthStorage.RevokeToken") && callres("op.AuthStorage.RevokeToken", 0) == nil ==> Resp_status[w] == 200
 //@   ensures refresh-lookup-by-caller: called("op.AuthStorage.GetRefreshTokenInfo") ==> callarg("op.AuthStorage.GetRefreshTokenInfo", 1) == callres("op.ParseTokenRevocationRequest", 2)
+
+// ---- C20: no hidden writes to package-level defaults or caller-/storage-owned objects ----
+
+// Discovery helpers only read the configuration and the package-level default lists.
+//@ func op.Scopes
+//@   requires valid(c)
+//@   modifies nothing
+//@ func op.SupportedClaims
+//@   requires valid(c)
+//@   modifies nothing
+//@ func op.ResponseTypes
+//@   modifies nothing
+//@ func op.SubjectTypes
+//@   modifies nothing
+//@ func op.CodeChallengeMethods
+//@   requires valid(c)
+//@   modifies nothing
+
+// A provider owns its endpoint table: options that customise endpoints must not write through the
+// package-level DefaultEndpoints shared by every other provider.
+//@ loop op.NewProvider#1
+//@   invariant owned-endpoints: o.endpoints != DefaultEndpoints
+//@ func op.WithCustomAuthEndpoint$1
+//@   requires valid(o) && valid(o.endpoints)
+//@   modifies o.endpoints.Authorization
+//@ func op.WithCustomTokenEndpoint$1
+//@   requires valid(o) && valid(o.endpoints)
+//@   modifies o.endpoints.Token
+
+// Getters of the device authorization state (owned by the storage) do not write to it.
+//@ func op.DeviceAuthorizationState.GetAudience
+//@   requires valid(r)
+//@   modifies nothing
+//@ func op.DeviceAuthorizationState.GetScopes
+//@   requires valid(r)
+//@   modifies nothing
